@@ -9,6 +9,12 @@ OVERLAY = os.path.join(VERIF, "harness", "overlay")
 BIN = os.path.join(VERIF, "bin")
 OUT = os.path.join(VERIF, "out")
 EVID = os.path.join(VERIF, "evidence")
+if os.environ.get("VERIF_REPO"):
+    # checks run against another tree (a seeded change in a scratch worktree) never touch the
+    # evidence and replay files of /repo
+    _alt = os.path.join("/var/tmp/verif_alt", hashlib.sha1(os.environ["VERIF_REPO"].encode()).hexdigest()[:8])
+    OUT = os.path.join(_alt, "out")
+    EVID = os.path.join(_alt, "evidence")
 TLAJARS = "/opt/veriftools/tla/tla2tools.jar:/opt/veriftools/tla/CommunityModules-deps.jar"
 NCPU = os.cpu_count() or 4
 
